@@ -12,4 +12,4 @@ git -C /repo checkout -- .
 grep -E "^VIOLATION|^  what" /verif/target/seed_eval_$ID.out | cut -c1-300 | head -6
 if [ $rc -eq 1 ]; then echo "RESULT $ID CAUGHT (tier=$TIER seed=$SEED)"; elif [ $rc -eq 0 ]; then echo "RESULT $ID MISSED (tier=$TIER seed=$SEED)"; else echo "RESULT $ID rc=$rc"; tail -3 /verif/target/seed_eval_$ID.out; fi
 # leave the build fresh for the unchanged tree again
-lib/build.sh >/dev/null 2>&1
+lib/build.sh --with-rip >/dev/null 2>&1
